@@ -5,6 +5,7 @@ import (
 	"crypto/sha256"
 	"encoding/hex"
 	"fmt"
+	"mosn.io/mosn/pkg/mosn"
 	"os"
 	"runtime"
 	"strings"
@@ -52,6 +53,8 @@ type ProxyParams struct {
 	Acts         *RouteActs   // generated route actions (C17)
 	TimeoutProbe bool         // C17: requests whose upstream never answers measure the effective timeout
 	NoRefuse     bool         // every host accepts connections
+	ShutdownMs   int          // C11: graceful stop is requested at this instant (0 = never)
+	DrainMs      int          // C11: drain timeout
 }
 
 // Proxy is the W-proxy world.
@@ -84,6 +87,11 @@ type Proxy struct {
 	sendsPending int
 	cfgJSON      []byte
 	Stats        map[string]int
+	mosn         *mosn.Mosn
+	sigAt        time.Duration // C11: when the stop was requested
+	shutRet      time.Duration // when Mosn.Shutdown returned
+	closeRet     time.Duration // when Mosn.Close returned
+	phase        map[int]string
 }
 
 func pickFrom[T any](ch *sim.Choices, stream, label string, opts []T) T {
@@ -115,8 +123,8 @@ func DrawProxyParams(ch *sim.Choices, prop string) ProxyParams {
 	p.SegMode = ch.Pick("params", "segmode", 4)
 	p.LatMode = ch.Pick("params", "latmode", 3)
 	p.Faults = ch.Bool("params", "faults")
-	if prop == "C07" {
-		p.Faults = false // the transport's segmentation is the only thing that varies
+	if prop == "C07" || prop == "C11" {
+		p.Faults = false // C07: the transport's segmentation is the only thing that varies; C11: the stop request is the only fault
 	}
 	p.WorkerPool = !ch.Bool("params", "noworkerpool")
 	p.ConnTimeoutS = pickFrom(ch, "params", "conntimeout", []int{0, 1, 3})
@@ -158,6 +166,12 @@ func DrawProxyParams(ch *sim.Choices, prop string) ProxyParams {
 		p.Oneway = ch.Chance("params", "oneway", 1, 3)
 		p.ClientLeaves = ch.Chance("params", "leaves", 1, 3)
 		p.ProtoTimeout = ch.Chance("params", "prototimeout", 1, 4)
+	}
+	if prop == "C11" {
+		p.Faults, p.NoRefuse = false, true
+		p.ShutdownMs = pickFrom(ch, "params", "shutdownat", []int{1, 3, 8, 20, 50, 100, 150, 250, 400})
+		p.DrainMs = pickFrom(ch, "params", "drain", []int{2000, 5000, 15000})
+		p.NConns = 1 + ch.Pick("params", "nconns11", 4)
 	}
 	if prop == "C17" {
 		p.Acts = DrawRouteActs(ch, p.Proto)
@@ -343,6 +357,10 @@ func bodyLen(ch *sim.Choices, big bool) int {
 
 func (w *Proxy) drawAction(ch *sim.Choices) peers.Action {
 	p := w.P
+	if p.ShutdownMs > 0 {
+		d := time.Duration(p.DrainMs) * time.Millisecond
+		return peers.Action{Kind: "reply", Delay: pickFrom(ch, "work", "delay11", []time.Duration{0, time.Millisecond, 5 * time.Millisecond, 30 * time.Millisecond, 120 * time.Millisecond, 400 * time.Millisecond, d / 4, d / 2, 2 * d})}
+	}
 	if !p.Faults {
 		return peers.Action{Kind: "reply", Delay: time.Duration(ch.Pick("work", "delay", 4)) * time.Millisecond}
 	}
@@ -405,8 +423,13 @@ func (w *Proxy) Setup() error {
 	RegisterScriptedFilter()
 	FLog = &filterLog{}
 	w.cfgJSON = w.buildConfig()
-	if _, err := StartMosn(w.cfgJSON); err != nil {
+	m, err := StartMosn(w.cfgJSON)
+	if err != nil {
 		return err
+	}
+	w.mosn = m
+	if p.ShutdownMs > 0 {
+		w.scheduleShutdown()
 	}
 	if p.Faults && !p.NoRefuse {
 		for _, a := range w.hostAddrs {
@@ -528,8 +551,10 @@ func (w *Proxy) quiescent() {
 			w.allocWatch = 0
 		}
 	}
-	w.checkC09Quiescent()
-	w.checkC10Quiescent()
+	if w.P.ShutdownMs == 0 { // pools and gauges of a stopping MOSN are not the subject of C09/C10
+		w.checkC09Quiescent()
+		w.checkC10Quiescent()
+	}
 	if w.finalSet {
 		return
 	}
@@ -568,6 +593,10 @@ func (w *Proxy) quiescent() {
 // probe (C09: capacity freed by finished, failed or refused requests is available
 // again), then the history oracles.
 func (w *Proxy) final() {
+	if w.P.ShutdownMs > 0 {
+		w.finish()
+		return
+	}
 	w.checkC09Idle()
 	w.checkC10Idle()
 	if k := w.probeSize(); k > 0 {
@@ -663,6 +692,10 @@ func (w *Proxy) finish() {
 	}
 	if w.N.DialsBlackholed > 0 {
 		w.S.Faults["connect_blackhole"] += w.N.DialsBlackholed
+	}
+	if w.P.ShutdownMs > 0 {
+		w.checkC11()
+		return
 	}
 	w.checkAll()
 }
